@@ -10,6 +10,7 @@
 import IocProofs.Lemmas.MatchPoint
 import IocProofs.Lemmas.MatchExamples
 import IocProofs.Lemmas.SemMatch
+import IocProofs.Lemmas.SemMatchLoop
 namespace Ioc.C08
 open Ioc Ioc.Tag Ioc.Match
 
@@ -171,5 +172,15 @@ example : Go.run (Sem.fdPrims ⟨byId Ex.pop, 4, .iface 0, []⟩) Progs.filterDe
     [.ref 0 1, .list ([some 0, some 1, some 2, some 4].map Sem.encOptId)] () =
     some (.tuple [.list [.ref 2 0], .nil], ()) :=
   (Sem.filterDependencies_sem ⟨byId Ex.pop, 4, .iface 0, []⟩ [some 0, some 1, some 2, some 4]).trans (by rfl)
+
+/-- the per-property LOOP of dependencyFurtherMatchingPostProcessors.PostProcessProperties, regenerated: properties are
+    visited in order; a non-component property is skipped; `filterDependencies` decides each component property ON ITS OWN
+    (its result is stored into that property's `Injects`, an optional miss stores nil and CONTINUES with the next property,
+    a required miss returns the error) — `Sem.fmLoop`.  This is the statement behind `C08_independent` (`resolveAll` =
+    `mapM resolveOne`) and the repair of D3/D4 (the early `return nil, nil`), now about the code's own syntax tree. -/
+theorem C08_code_propertyLoop (ps : List Sem.PropInfo) :
+    Go.run (Sem.fmPrims ps) Progs.furtherMatching_PostProcessProperties [(Sem.fmEnv ps.length).head!.2, .nil, .nil] [] =
+      some (if (Sem.fmLoop ps 0 []).2 then .tuple [.nil, Sem.errV] else .tuple [.nil, .nil], (Sem.fmLoop ps 0 []).1) :=
+  Sem.furtherMatching_sem ps
 
 end Ioc.C08
